@@ -3,12 +3,22 @@
 
 import sys
 import threading
+import time
 
 from . import core
 
 
 class Hang(core.HarnessError):
     pass
+
+
+class Stalled(Exception):
+    """The thread that was given the turn never reached its next scheduling point and is not moving: it waits for
+    something only a suspended thread could release (a lock of the code under test held across scheduling points)."""
+
+    def __init__(self, info):
+        Exception.__init__(self, 'stalled: %r' % (info,))
+        self.info = info
 
 
 class Baton(object):
@@ -103,16 +113,65 @@ class Baton(object):
             else:
                 self.sems[self._choose()].release()
 
-    def run(self, fns, watchdog_s=60):
+    def _positions(self, threads):
+        frames = sys._current_frames()
+        pos = {}
+        for i, th in enumerate(threads):
+            if self.done[i] or th.ident not in frames:
+                continue
+            f = frames[th.ident]
+            pos[i] = (f.f_code.co_filename, f.f_code.co_name, f.f_lineno, f.f_lasti)
+        return pos
+
+    def _all_threads_motionless(self, threads):
+        first = self._positions(threads)
+        progress = (self.yields, sum(self.done))
+        for _ in range(4):
+            time.sleep(0.3)
+            if self._positions(threads) != first or (self.yields, sum(self.done)) != progress:
+                return False
+        return True
+
+    def _where(self, threads):
+        out = {}
+        frames = sys._current_frames()
+        for i, th in enumerate(threads):
+            if self.done[i] or th.ident not in frames:
+                continue
+            f = frames[th.ident]
+            stack = []
+            while f is not None and len(stack) < 6:
+                stack.append('%s:%s' % (f.f_code.co_name, f.f_lineno))
+                f = f.f_back
+            out[str(i)] = stack
+        return out
+
+    def run(self, fns, watchdog_s=90, stall_s=10.0):
         threads = [threading.Thread(target=self._thread_main, args=(i, fn), name='sim-%d' % i, daemon=True) for i, fn in enumerate(fns)]
         for th in threads:
             th.start()
         first = self._choose()
         self.sems[first].release()
-        if not self.main_sem.acquire(timeout=watchdog_s):
-            self.aborted = True
-            for s in self.sems:
-                s.release()
-            raise Hang('baton scheduler: threads did not finish within %ss (yields=%d)' % (watchdog_s, self.yields))
+        # Liveness watchdog (the only place a real clock is read, and it decides nothing but "nobody moves any more"): no
+        # scheduling point reached and no thread finished for stall_s seconds, and every unfinished thread sits at exactly
+        # the same instruction over several samples.
+        t_start = time.time()
+        last = (self.yields, sum(self.done))
+        last_change = t_start
+        while not self.main_sem.acquire(timeout=0.25):
+            now = time.time()
+            cur = (self.yields, sum(self.done))
+            if cur != last:
+                last, last_change = cur, now
+            elif now - last_change > stall_s and self._all_threads_motionless(threads):
+                self.aborted = True
+                info = {'yields': self.yields, 'finished': [i for i in range(self.n) if self.done[i]],
+                        'where': self._where(threads)}
+                raise Stalled(info)
+            if now - t_start > watchdog_s:
+                self.aborted = True
+                for s in self.sems:
+                    s.release()
+                raise Hang('baton scheduler: threads did not finish within %ss (yields=%d)' % (watchdog_s, self.yields))
         for th in threads:
             th.join(timeout=10)
